@@ -64,8 +64,14 @@ func wiringByName(name string) *wiring {
 			{Kind: "system", Store: "b"},
 		}}
 	}
+	// wirings registered by property-specific files (not part of allWirings)
+	if f, ok := extraWirings[name]; ok {
+		return f()
+	}
 	return nil
 }
+
+var extraWirings = map[string]func() *wiring{}
 
 var allWirings = []string{"idx", "fkc", "casc"}
 
